@@ -67,6 +67,20 @@ def _process_step_expression(
         case 'union' | 'intersection' | 'difference':
             # The set operators are used to combine the left hand and right
             # hand targets accordingly.
+            if len(target_assets) > 1:
+                # A set operator applies to each of the current target assets
+                # separately, e.g. in `a.(b /\ c)` the intersection is taken
+                # for every asset of `a` on its own. Merge the results.
+                new_target_assets = []
+                for target_asset in target_assets:
+                    (assets, _) = _process_step_expression(
+                        lang_graph, model, [target_asset], step_expression)
+                    for asset in assets:
+                        if not any(known.id == asset.id \
+                                for known in new_target_assets):
+                            new_target_assets.append(asset)
+                return (new_target_assets, None)
+
             lh_targets, lh_attack_steps = _process_step_expression(
                 lang_graph, model, target_assets, step_expression['lhs'])
             rh_targets, rh_attack_steps = _process_step_expression(
